@@ -19,7 +19,7 @@ import (
 )
 
 var recPktClient = ev.New("C04", "packet-client",
-	"rapid + synctest bubble: one real client session receives packets of three real server sessions S1,S2,S3 (ShadowPacketServerPacker "+
+	"rapid + synctest bubble: one real client session receives packets of four real server sessions S1..S4 (ShadowPacketServerPacker "+
 		"from NewPacker) plus sessions that exist only in the harness encoder (random id, id 0); the drawn history (<=90 steps) packs, "+
 		"switches the genuine session, delivers pool packets in drawn order, forges (valid with arbitrary id/timestamp/session, wrong key, bit "+
 		"flip, wrong type, stale timestamp, other client's session id, truncated, foreign key) and advances the clock (1 ns..90 s around 30/60 s). "+
@@ -28,7 +28,8 @@ var recPktClient = ev.New("C04", "packet-client",
 		"followed), bad packets rejected, same datagram never delivered twice, and a twin universe that never sees the bad packets gives the "+
 		"same verdicts. Non-trivial: duplicate + out-of-order in-window + 64-bit block crossing in one session; distinct key = config + verdict string").
 	Require("dup", "ooo-in-window", "block-cross", "forged-bad", "first-session", "change-accepted", "change-refused",
-		"old-replay-rejected", "bad-wrong-csid", "bad-wrong-type", "bad-stale-ts", "stale-by-clock", "fresh-after-bad", "default-size", "default-size-ooo-in-window")
+		"old-replay-rejected", "bad-wrong-csid", "bad-wrong-type", "bad-stale-ts", "stale-by-clock", "fresh-after-bad", "default-size", "default-size-ooo-in-window",
+		"second-server-session-change-accepted", "third-server-session-change-accepted", "packets-after-second-change-accepted")
 
 const (
 	mustReject = iota
@@ -113,8 +114,8 @@ func (m *cliModel) apply(ssid, pid uint64, now time.Time) (adopted bool) {
 // cliUniverse is one client session with its three genuine server sessions.
 type cliUniverse struct {
 	e       *endpoint
-	packers [3]zerocopy.ServerPacker
-	ssid    [5]uint64
+	packers [4]zerocopy.ServerPacker // four genuine server sessions: up to three changes
+	ssid    [6]uint64                // 0..3 genuine, 4 harness-only, 5 session id 0
 	pool    []*pkt
 }
 
@@ -286,13 +287,15 @@ func runClientSession(c pcfg, plan []step, peers [2]*peer, carry *[2][]*pkt) (re
 			u.ssid[i] = p.sid
 			u.pool = append(u.pool, p)
 		}
-		u.ssid[3] = c.Seed | 2 // never 0; a collision with a random genuine id has probability 2^-62
-		u.ssid[4] = 0
+		u.ssid[4] = c.Seed | 2 // never 0; a collision with a random genuine id has probability 2^-62
+		u.ssid[5] = 0
 	}
 	tag = 2
 	model := &cliModel{size: c.Size}
 	curS := 0
 	var dup, ooo, cross, badSeen bool
+	var changes, afterChange int
+	var afterChangeHigh bool
 	started := time.Now()
 	if carry != nil {
 		// authentic server packets addressed to an earlier session of the same client object: for this
@@ -391,10 +394,29 @@ func runClientSession(c pcfg, plan []step, peers [2]*peer, carry *[2][]*pkt) (re
 		if pa.deliver > 1 {
 			return fmt.Sprintf("SIG=C04/pkt-client-twice step=%d ssid=%#x pid=%d: the same datagram was delivered twice", i, pa.sid, pa.pid)
 		}
+		hadSession := model.cur != nil
 		if model.apply(pa.sid, pa.pid, now) {
 			res.verdicts = append(res.verdicts, 'N')
+			if hadSession {
+				changes++
+				afterChange, afterChangeHigh = 0, false
+				switch changes {
+				case 2:
+					res.labels["second-server-session-change-accepted"] = true
+				case 3:
+					res.labels["third-server-session-change-accepted"] = true
+				}
+			}
 		} else {
 			res.verdicts = append(res.verdicts, '1')
+			if changes >= 2 && pa.sid == model.cur.ssid {
+				// the ids of the newly adopted server session restart at 0: each of them is fresh
+				afterChange++
+				afterChangeHigh = afterChangeHigh || pa.pid >= 2
+				if afterChange >= 3 && afterChangeHigh {
+					res.labels["packets-after-second-change-accepted"] = true
+				}
+			}
 		}
 		res.delivered++
 		if badSeen {
@@ -406,7 +428,7 @@ func runClientSession(c pcfg, plan []step, peers [2]*peer, carry *[2][]*pkt) (re
 	for i, s := range plan {
 		switch s.Op {
 		case opSwitch:
-			curS = min(curS+1, 2)
+			curS = min(curS+1, len(ua.packers)-1)
 		case opPack:
 			sess := s.Sess
 			if sess < 0 {
@@ -446,12 +468,30 @@ func runClientSession(c pcfg, plan []step, peers [2]*peer, carry *[2][]*pkt) (re
 			for _, u := range unis {
 				u.pool = append(u.pool, u.forge(c, s, sess, pid, tag, now))
 			}
-			if sess >= 3 {
+			if sess >= len(ua.packers) {
 				res.labels["harness-only-session"] = true
 			}
 			if v := present(i, len(ua.pool)-1); v != "" {
 				res.violation = v
 				return res, tr
+			}
+		case opBurst:
+			base := len(ua.pool)
+			for range s.N {
+				tag++
+				for _, u := range unis {
+					p, err := u.serverPack(curS, tag, int(tag%24))
+					if err != nil {
+						return fail("pack: %v", err)
+					}
+					u.pool = append(u.pool, p)
+				}
+			}
+			for _, k := range burstOrder(s.N, s.Pick) {
+				if v := present(i, base+k); v != "" {
+					res.violation = v
+					return res, tr
+				}
 			}
 		case opAdvance:
 			time.Sleep(s.D)
